@@ -14,21 +14,3 @@ func c02refUpper(s string) []rune {
 	}
 	return out
 }
-
-func H_C02_ntlm_v2_unicode_names() {
-	user := c02names[vParam("name")]
-	domain := c02names[vParam("dom")]
-	pw, pw16, _ := c02ascii("pw", vParam("plen"))
-	nt := refMD4(pw16)
-	ntowf := c02hmac(nt[:], refUTF16LE(c02refUpper(user)), refUTF16LE([]rune(domain)))
-	vCheck(vBytesEq(ntowfv2(user, pw, domain), ntowf), "ntlm/ntowfv2-for-non-ASCII-names")
-	ch := &ChallengeMessage{}
-	copy(ch.ServerChallenge[:], vBytes("server", 8))
-	ch.TargetInfo = vBytes("ti", 4)
-	_, ntResp, err := calculateNTLMv2Response(ch, user, pw, domain)
-	vCheck(err == nil && len(ntResp) >= 44, "ntlm/v2u/ok")
-	if err == nil && len(ntResp) >= 44 {
-		vCheck(vBytesEq(ntResp[:16], c02hmac(ntowf, ch.ServerChallenge[:], ntResp[16:])), "ntlm/v2u/NTProofStr-verifies-for-non-ASCII-names")
-	}
-	vCover("end")
-}
